@@ -45,6 +45,7 @@ def main():
         mabs = os.path.abspath(mdir)
         run_demo = demo_cmd.replace("<repo>", wt).replace("<worktree>", wt)
         run_demo = re.sub(r"\s*\(after copying[^)]*\)\s*", " ", run_demo).strip()
+        run_demo = re.sub(r"\s{2,}\(.*$", "", run_demo, flags=re.S).strip()  # trailing free-text remark
         if "cp " not in run_demo:
             # no copy step given: the demonstration goes into the package the go test command names
             m = re.search(r"go test .*?(\./[\w./-]+|\s\.)\s*$", run_demo)
@@ -69,7 +70,7 @@ def main():
         tests_ok = True
         if "--skip-tests" not in sys.argv:
             for pkg in meta.get("touched_packages") or []:
-                pkg = pkg.replace("github.com/feichai0017/NoKV", ".")
+                pkg = (pkg.split() or ["."])[0].replace("github.com/feichai0017/NoKV", ".")
                 if not pkg.startswith("."):
                     pkg = "./" + pkg
                 cmd = "timeout 1500 go test -count=1 %s" % pkg
